@@ -3,43 +3,248 @@ From Whawty Require Import Bytes Bytes_proofs Base64.
 From Coq Require Import ZifyN ZifyNat ZifyBool.
 Open Scope N_scope.
 
+Local Ltac Zify.zify_post_hook ::= Z.div_mod_to_equations.
+
+Local Ltac destr_ifs :=
+  repeat match goal with
+         | |- context [if ?b then _ else _] => destruct b eqn:?
+         end.
+
 Lemma b64val_char al v : v < 64 -> b64val al (b64char al v) = Some v.
-Admitted.
+Proof.
+  intros H. unfold b64char.
+  destruct (v <? 26) eqn:E1; [|destruct (v <? 52) eqn:E2; [|destruct (v <? 62) eqn:E3;
+    [|destruct (v =? 62) eqn:E4]]].
+  - unfold b64val. destr_ifs; try lia; f_equal; lia.
+  - unfold b64val. destr_ifs; try lia; f_equal; lia.
+  - unfold b64val. destr_ifs; try lia; f_equal; lia.
+  - assert (v = 62) by lia. subst v. destruct al; reflexivity.
+  - assert (v = 63) by lia. subst v. destruct al; reflexivity.
+Qed.
 
 (* the encoder's characters are never ':' LF CR '=' and are bytes *)
 Lemma b64char_plain al v :
   v < 64 ->
   let c := b64char al v in
   c <> 58 /\ c <> 10 /\ c <> 13 /\ c <> 61 /\ c < 256.
-Admitted.
+Proof.
+  intros H. cbv zeta. unfold b64char.
+  destruct (v <? 26) eqn:E1; [lia|]. destruct (v <? 52) eqn:E2; [lia|].
+  destruct (v <? 62) eqn:E3; [lia|].
+  destruct (v =? 62); destruct al; lia.
+Qed.
 
 Lemma b64val_range al c v : b64val al c = Some v -> v < 64.
-Admitted.
+Proof.
+  unfold b64val.
+  destruct ((65 <=? c) && (c <=? 90)) eqn:E1; [intros [= <-]; lia|].
+  destruct ((97 <=? c) && (c <=? 122)) eqn:E2; [intros [= <-]; lia|].
+  destruct ((48 <=? c) && (c <=? 57)) eqn:E3; [intros [= <-]; lia|].
+  destruct al.
+  - destruct (c =? 43); [intros [= <-]; lia|]. destruct (c =? 47); [intros [= <-]; lia|].
+    discriminate.
+  - destruct (c =? 45); [intros [= <-]; lia|]. destruct (c =? 95); [intros [= <-]; lia|].
+    discriminate.
+Qed.
+
+Lemma list_ind3 {A} (P : list A -> Prop) :
+  P [] -> (forall a, P [a]) -> (forall a b, P [a; b]) ->
+  (forall a b c r, P r -> P (a :: b :: c :: r)) -> forall l, P l.
+Proof.
+  intros H0 H1 H2 H3.
+  assert (H : forall l, P l /\ (forall a, P (a :: l)) /\ (forall a b, P (a :: b :: l))).
+  { induction l as [|x l (IH0 & IH1 & IH2)]; auto. }
+  intros l. apply H.
+Qed.
+
+Lemma b64val_pad al : b64val al pad = None.
+Proof. destruct al; reflexivity. Qed.
+
+Lemma b64val_nl al c : is_nl c = true -> b64val al c = None.
+Proof.
+  unfold is_nl. intros H.
+  assert (Hc : c = 10 \/ c = 13) by lia.
+  destruct Hc; subst c; destruct al; reflexivity.
+Qed.
+
+Lemma skip_nl_all s : forallb is_nl s = true -> skip_nl s = [].
+Proof.
+  induction s as [|c s IH]; cbn [forallb skip_nl]; auto.
+  intros H. apply andb_true_iff in H. destruct H as [H1 H2]. rewrite H1. auto.
+Qed.
+
+Lemma b64dec_q_nl al tail q :
+  forallb is_nl tail = true -> b64dec_q al tail q = match q with [] => Some [] | _ => None end.
+Proof.
+  induction tail as [|c s IH]; cbn [forallb b64dec_q]; auto.
+  intros H. apply andb_true_iff in H. destruct H as [H1 H2].
+  rewrite (b64val_nl al c H1), H1. auto.
+Qed.
+
+Lemma b64dec_q_quad al c1 c2 c3 c4 v1 v2 v3 v4 r :
+  b64val al c1 = Some v1 -> b64val al c2 = Some v2 ->
+  b64val al c3 = Some v3 -> b64val al c4 = Some v4 ->
+  b64dec_q al (c1 :: c2 :: c3 :: c4 :: r) [] =
+  match b64dec_q al r [] with
+  | Some t => Some ((v1 * 4 + v2 / 16) :: ((v2 mod 16) * 16 + v3 / 4) :: ((v3 mod 4) * 64 + v4) :: t)
+  | None => None
+  end.
+Proof.
+  intros H1 H2 H3 H4. cbn [b64dec_q app]. rewrite H1. cbn [app].
+  rewrite H2. cbn [app]. rewrite H3. cbn [app]. rewrite H4. reflexivity.
+Qed.
+
+Lemma b64dec_q_pad1 al c1 c2 c3 v1 v2 v3 tail :
+  b64val al c1 = Some v1 -> b64val al c2 = Some v2 -> b64val al c3 = Some v3 ->
+  forallb is_nl tail = true ->
+  b64dec_q al (c1 :: c2 :: c3 :: pad :: tail) [] =
+  Some [v1 * 4 + v2 / 16; (v2 mod 16) * 16 + v3 / 4].
+Proof.
+  intros H1 H2 H3 Ht. cbn [b64dec_q app]. rewrite H1. cbn [app].
+  rewrite H2. cbn [app]. rewrite H3. cbn [app]. rewrite b64val_pad.
+  change (is_nl pad) with false. change (pad =? pad) with true. cbv iota.
+  rewrite (skip_nl_all _ Ht). reflexivity.
+Qed.
+
+Lemma b64dec_q_pad2 al c1 c2 v1 v2 tail :
+  b64val al c1 = Some v1 -> b64val al c2 = Some v2 ->
+  forallb is_nl tail = true ->
+  b64dec_q al (c1 :: c2 :: pad :: pad :: tail) [] = Some [v1 * 4 + v2 / 16].
+Proof.
+  intros H1 H2 Ht. cbn [b64dec_q app]. rewrite H1. cbn [app].
+  rewrite H2. cbn [app]. rewrite b64val_pad.
+  change (is_nl pad) with false. change (pad =? pad) with true. cbv iota.
+  cbn [skip_nl]. change (is_nl pad) with false. cbv iota.
+  change (pad =? pad) with true. cbv iota.
+  rewrite (skip_nl_all _ Ht). reflexivity.
+Qed.
+
+Lemma bytes_wf_cons a x : bytes_wf (a :: x) = true <-> a < 256 /\ bytes_wf x = true.
+Proof.
+  unfold bytes_wf. cbn [forallb]. rewrite andb_true_iff. unfold byte_wf.
+  rewrite N.ltb_lt. tauto.
+Qed.
 
 (* Decoding an encoding returns the original bytes; trailing CR/LF are
    ignored (the stored digest is followed by the line's '\n'). *)
 Theorem b64dec_enc al x tail :
   bytes_wf x = true -> forallb is_nl tail = true ->
   b64dec al (b64enc al x ++ tail) = Some x.
-Admitted.
+Proof.
+  intros Hx Ht. unfold b64dec. revert Hx.
+  induction x as [|a|a b|a b c r IH] using list_ind3; intros Hx.
+  - cbn [b64enc app]. rewrite b64dec_q_nl by assumption. reflexivity.
+  - apply bytes_wf_cons in Hx. destruct Hx as [Ha _].
+    cbn [b64enc app].
+    erewrite b64dec_q_pad2; [| apply b64val_char; lia | apply b64val_char; lia | assumption].
+    do 2 f_equal. lia.
+  - apply bytes_wf_cons in Hx. destruct Hx as [Ha Hx].
+    apply bytes_wf_cons in Hx. destruct Hx as [Hb _].
+    cbn [b64enc app].
+    erewrite b64dec_q_pad1;
+      [| apply b64val_char; lia | apply b64val_char; lia | apply b64val_char; lia | assumption].
+    f_equal. f_equal; [lia|]. f_equal. lia.
+  - apply bytes_wf_cons in Hx. destruct Hx as [Ha Hx].
+    apply bytes_wf_cons in Hx. destruct Hx as [Hb Hx].
+    apply bytes_wf_cons in Hx. destruct Hx as [Hc Hx].
+    cbn [b64enc app].
+    erewrite b64dec_q_quad;
+      [| apply b64val_char; lia | apply b64val_char; lia
+       | apply b64val_char; lia | apply b64val_char; lia ].
+    rewrite (IH Hx). f_equal. f_equal; [lia|]. f_equal; [lia|]. f_equal. lia.
+Qed.
+
+Lemma b64enc_chars al (P : byte -> bool) x :
+  (forall v, v < 64 -> P (b64char al v) = true) -> P pad = true ->
+  bytes_wf x = true -> forallb P (b64enc al x) = true.
+Proof.
+  intros HP Hpad.
+  induction x as [|a|a b|a b c r IH] using list_ind3; intros Hx.
+  - reflexivity.
+  - apply bytes_wf_cons in Hx. destruct Hx as [Ha _].
+    cbn [b64enc forallb]. rewrite !HP, Hpad by lia. reflexivity.
+  - apply bytes_wf_cons in Hx. destruct Hx as [Ha Hx].
+    apply bytes_wf_cons in Hx. destruct Hx as [Hb _].
+    cbn [b64enc forallb]. rewrite !HP, Hpad by lia. reflexivity.
+  - apply bytes_wf_cons in Hx. destruct Hx as [Ha Hx].
+    apply bytes_wf_cons in Hx. destruct Hx as [Hb Hx].
+    apply bytes_wf_cons in Hx. destruct Hx as [Hc Hx].
+    cbn [b64enc forallb]. rewrite !HP, (IH Hx) by lia. reflexivity.
+Qed.
 
 Lemma b64enc_no_colon al x : bytes_wf x = true -> contains 58 (b64enc al x) = false.
-Admitted.
+Proof.
+  intros Hx. apply contains_forallb. apply b64enc_chars; auto.
+  intros v Hv. pose proof (b64char_plain al v Hv) as H. cbv zeta in H. lia.
+Qed.
 
 Lemma b64enc_no_lf al x : bytes_wf x = true -> contains 10 (b64enc al x) = false.
-Admitted.
+Proof.
+  intros Hx. apply contains_forallb. apply b64enc_chars; auto.
+  intros v Hv. pose proof (b64char_plain al v Hv) as H. cbv zeta in H. lia.
+Qed.
 
 Lemma b64enc_wf al x : bytes_wf x = true -> bytes_wf (b64enc al x) = true.
-Admitted.
+Proof.
+  intros Hx. unfold bytes_wf at 1. apply b64enc_chars; auto.
+  intros v Hv. pose proof (b64char_plain al v Hv) as H. cbv zeta in H.
+  unfold byte_wf. lia.
+Qed.
 
 Lemma b64enc_nonempty al x : x <> [] -> b64enc al x <> [].
-Admitted.
+Proof.
+  destruct x as [|a [|b [|c r]]]; cbn [b64enc]; intros H; try discriminate.
+  contradiction.
+Qed.
 
 (* decoded output is always a byte string *)
+Lemma b64dec_q_wf al s : forall q x,
+  Forall (fun v => v < 64) q ->
+  b64dec_q al s q = Some x -> bytes_wf x = true.
+Proof.
+  induction s as [|c r IH]; intros q x Hq H.
+  - cbn [b64dec_q] in H. destruct q; [|discriminate]. injection H as <-. reflexivity.
+  - cbn [b64dec_q] in H. destruct (b64val al c) as [v|] eqn:Ev.
+    + pose proof (b64val_range _ _ _ Ev) as Hv.
+      assert (Hq' : Forall (fun v => v < 64) (q ++ [v])).
+      { apply Forall_app. split; auto. }
+      destruct q as [|x1 [|y1 [|z1 [|w1 q']]]];
+        try (eapply IH; [exact Hq'|exact H]).
+      destruct (b64dec_q al r []) as [t|] eqn:Et; [|discriminate].
+      injection H as <-.
+      inversion Hq as [|? ? Hx1 Hq1]; subst. inversion Hq1 as [|? ? Hy1 Hq2]; subst.
+      inversion Hq2 as [|? ? Hz1 _]; subst.
+      apply bytes_wf_cons. split; [lia|].
+      apply bytes_wf_cons. split; [lia|].
+      apply bytes_wf_cons. split; [lia|].
+      eapply IH; [|exact Et]. constructor.
+    + destruct (is_nl c); [eapply IH; eauto|].
+      destruct (c =? pad); [|discriminate].
+      destruct q as [|x1 [|y1 [|z1 [|w1 q']]]]; try discriminate.
+      * inversion Hq as [|? ? Hx1 Hq1]; subst. inversion Hq1 as [|? ? Hy1 _]; subst.
+        destruct (skip_nl r) as [|c2 r2]; [discriminate|].
+        destruct (c2 =? pad); [|discriminate].
+        destruct (skip_nl r2); [|discriminate].
+        injection H as <-. apply bytes_wf_cons. split; [lia|reflexivity].
+      * inversion Hq as [|? ? Hx1 Hq1]; subst. inversion Hq1 as [|? ? Hy1 Hq2]; subst.
+        inversion Hq2 as [|? ? Hz1 _]; subst.
+        destruct (skip_nl r); [|discriminate].
+        injection H as <-.
+        apply bytes_wf_cons. split; [lia|].
+        apply bytes_wf_cons. split; [lia|reflexivity].
+Qed.
+
 Lemma b64dec_wf al s x : b64dec al s = Some x -> bytes_wf x = true.
-Admitted.
+Proof.
+  unfold b64dec. apply b64dec_q_wf. constructor.
+Qed.
 
 (* the encoder is injective on byte strings *)
 Lemma b64enc_inj al x y :
   bytes_wf x = true -> bytes_wf y = true -> b64enc al x = b64enc al y -> x = y.
-Admitted.
+Proof.
+  intros Hx Hy H.
+  pose proof (b64dec_enc al x [] Hx eq_refl) as H1.
+  pose proof (b64dec_enc al y [] Hy eq_refl) as H2.
+  rewrite H in H1. congruence.
+Qed.
